@@ -247,79 +247,158 @@ def _cos_equal(a: Poly, b: Poly) -> bool:
         return False
 
 
+def _const_truth(t: ast.expr, funcs: set[str]) -> bool | None:
+    """Truth of a guard whose locals were inlined, where it is decided by
+    constants: `None is None`, `f is not None` (f a module-level function),
+    and / or / not of those."""
+    if isinstance(t, ast.BoolOp):
+        vs = [_const_truth(v, funcs) for v in t.values]
+        if isinstance(t.op, ast.And):
+            return False if False in vs else (
+                True if all(v is True for v in vs) else None)
+        return True if True in vs else (
+            False if all(v is False for v in vs) else None)
+    if isinstance(t, ast.UnaryOp) and isinstance(t.op, ast.Not):
+        v = _const_truth(t.operand, funcs)
+        return None if v is None else not v
+    if isinstance(t, ast.Compare) and len(t.ops) == 1 and isinstance(
+            t.ops[0], (ast.Is, ast.IsNot)):
+        def kind(e: ast.expr) -> str | None:
+            if isinstance(e, ast.Constant):
+                return "none" if e.value is None else "obj"
+            if isinstance(e, ast.Name) and e.id in funcs:
+                return "obj"
+            return None
+        ka, kb = kind(t.left), kind(t.comparators[0])
+        if ka is None or kb is None or "none" not in (ka, kb):
+            return None
+        same = ka == kb
+        return same if isinstance(t.ops[0], ast.Is) else not same
+    return None
+
+
+def _pos_atoms(guards: tuple) -> list[ast.expr]:
+    """The atoms that hold on a path: conjuncts of tests taken as true,
+    negated disjuncts of tests taken as false."""
+    out: list[ast.expr] = []
+
+    def add(t: ast.expr, truth: bool) -> None:
+        if isinstance(t, ast.UnaryOp) and isinstance(t.op, ast.Not):
+            add(t.operand, not truth)
+        elif isinstance(t, ast.BoolOp) and isinstance(
+                t.op, ast.And if truth else ast.Or):
+            for v in t.values:
+                add(v, truth)
+        elif truth:
+            out.append(t)
+        elif isinstance(t, ast.Compare) and len(t.ops) == 1 and isinstance(
+                t.ops[0], ast.NotEq):
+            out.append(ast.Compare(left=t.left, ops=[ast.Eq()],
+                                   comparators=t.comparators))
+    for t, truth in guards:
+        add(t, truth)
+    return out
+
+
 def _type_table(ctx: Ctx, formulas: dict[str, str]) -> None:
+    """Path by path through the dispatcher: every feasible path that builds
+    the matrix hands `__matrix_from_points` a distance function, and the
+    path condition contains `edge_weight_type == T` for the TSPLIB type T
+    whose formula that function implements."""
+    from sa.pathinline import paths
     repo = ctx.repo
     fi = repo.func(MOD, "_matrix_from_node_coord_section")
     mod = fi.module
-    n = 0
-    seen: set[str] = set()
-    # roles by use: the locals handed to __matrix_from_points as the
-    # coordinate dimension (2nd) and the distance function (4th)
-    mcalls = [c for c in ast.walk(fi.node) if isinstance(c, ast.Call)
-              and isinstance(c.func, ast.Name)
-              and "matrix_from_points" in c.func.id]
-    DF = mcalls[0].args[3].id if mcalls and len(
-        mcalls[0].args) >= 4 and isinstance(
-        mcalls[0].args[3], ast.Name) else "dist_fun"
     EWT = fi.params[1] if len(fi.params) > 1 else "edge_weight_type"
-    for node in ast.walk(fi.node):
-        if not isinstance(node, ast.If):
-            continue
-        fn = None
-        for s in node.body:
-            if isinstance(s, ast.Assign) and isinstance(
-                    s.targets[0], ast.Name) and \
-                    s.targets[0].id == DF and isinstance(
-                    s.value, ast.Name):
-                fn = s.value.id
-        if fn is None:
-            continue
-        n += 1
-        # the branch is taken only if edge_weight_type == <that type>: the
-        # equality must be the test itself or a conjunct of it
-        conj = node.test.values if isinstance(
-            node.test, ast.BoolOp) and isinstance(
-            node.test.op, ast.And) else [node.test]
-        ty = None
-        for c in conj:
-            if isinstance(c, ast.Compare) and len(c.ops) == 1 and isinstance(
-                    c.ops[0], ast.Eq) and isinstance(
-                    c.left, ast.Name) and c.left.id == EWT:
-                ty = repo.const(mod, c.comparators[0])
-        ok = ty is not None and formulas.get(fn) == ty
-        if ty is not None:
-            seen.add(ty)
-        ctx.ob("D18.1", fi, node, ok,
-               f"EDGE_WEIGHT_TYPE {ty!r} uses {fn}, which implements "
-               f"{formulas.get(fn, 'no TSPLIB formula')}" if ty is not None
-               else f"{fn} (implementing {formulas.get(fn, '?')}) is chosen "
-               f"under `{ast.unparse(node.test)[:80]}`, which does not "
-               "require the matching EDGE_WEIGHT_TYPE",
-               construct=f"type table {formulas.get(fn, fn)}")
+    funcs = set(formulas)
+    all_dist = {f.name for f in repo.module(MOD).funcs.values()
+                if f.name.startswith("__dist_")}
+    partial = False
+    seen: set[str] = set()
+    done: set[str] = set()
+    builds = 0
+    bad_guard: list[str] = []
+    unknown: list[str] = []
+    try:
+        ps = paths(func_body(fi))
+    except ValueError:
+        ps = []
+        unknown.append("too many paths")
+    for p in ps:
+        if any(_const_truth(t, all_dist) is (not truth)
+               for t, truth in p.guards):
+            continue            # infeasible
+        for e in p.events:
+            calls = [c for c in ast.walk(e.value) if isinstance(c, ast.Call)
+                     and isinstance(c.func, ast.Name)
+                     and "matrix_from_points" in c.func.id] \
+                if isinstance(e.value, ast.AST) else []
+            for c in calls:
+                builds += 1
+                d = c.args[3] if len(c.args) >= 4 and not c.keywords \
+                    else None
+                if isinstance(d, ast.Constant) and d.value is None:
+                    bad_guard.append("a path with the conditions "
+                                     + " and ".join(
+                                         ("" if tr else "not ")
+                                         + f"({ast.unparse(t)[:60]})"
+                                         for t, tr in p.guards[-3:]))
+                    continue
+                if isinstance(d, ast.Name) and d.id in all_dist and \
+                        d.id not in funcs:
+                    partial = True      # reported by the formula rule
+                    continue
+                if not (isinstance(d, ast.Name) and d.id in funcs):
+                    unknown.append(ast.unparse(d) if d is not None
+                                   else ast.unparse(c)[:60])
+                    continue
+                fn = d.id
+                ty = None
+                for a_ in _pos_atoms(p.guards):
+                    if isinstance(a_, ast.Compare) and len(
+                            a_.ops) == 1 and isinstance(a_.ops[0], ast.Eq):
+                        for x, y in ((a_.left, a_.comparators[0]),
+                                     (a_.comparators[0], a_.left)):
+                            if isinstance(x, ast.Name) and x.id == EWT:
+                                v = repo.const(mod, y)
+                                if isinstance(v, str):
+                                    ty = v
+                ok = ty is not None and formulas.get(fn) == ty
+                if ty is not None:
+                    seen.add(ty)
+                key = f"{fn}/{ty}/{ok}"
+                if key in done:
+                    continue
+                done.add(key)
+                ctx.ob("D18.1", fi, e.node, ok,
+                       f"EDGE_WEIGHT_TYPE {ty!r} uses {fn}, which "
+                       f"implements {formulas.get(fn, 'no TSPLIB formula')}"
+                       if ty is not None else
+                       f"{fn} (implementing {formulas.get(fn, '?')}) is "
+                       "handed to the matrix builder on a path whose "
+                       "conditions do not require the matching "
+                       "EDGE_WEIGHT_TYPE",
+                       construct=f"type table {formulas.get(fn, fn)}")
+    n = len(seen)
     ctx.count("edge_weight_types", n)
     miss = sorted(set(formulas.values()) - seen)
-    ctx.ob("D18.1", fi, fi.node, not miss and n >= 4,
+    if unknown or not builds:
+        ctx.ob("D18.1", fi, fi.node, False,
+               "the dispatch from EDGE_WEIGHT_TYPE to the distance function "
+               "is not recognised (" + ("; ".join(unknown[:3]) or
+                                        "no call of the matrix builder")
+               + ")", construct="type table shape")
+    ctx.ob("D18.1", fi, fi.node,
+           (not miss and n >= 4) or bool(unknown) or partial,
            "every implemented TSPLIB distance type has its branch" if
            not miss and n >= 4 else
            f"no branch selects a distance function for {miss}",
            construct="type table complete")
-    # the matrix is computed only when a function was selected
-    calls = [c for c in ast.walk(fi.node) if isinstance(c, ast.Call)
-             and isinstance(c.func, ast.Name)
-             and "matrix_from_points" in c.func.id]
-    okg = False
-    for node in ast.walk(fi.node):
-        if isinstance(node, ast.If) and calls and any(
-                calls[0] is x for x in ast.walk(node)):
-            t = node.test
-            parts = [ast.unparse(v).replace(" ", "") for v in (
-                t.values if isinstance(t, ast.BoolOp) and isinstance(
-                    t.op, ast.And) else [t])]
-            okg = f"{DF}isnotNone" in parts
-    ctx.ob("D18.1", fi, calls[0] if calls else fi.node, okg,
+    ctx.ob("D18.1", fi, fi.node, not bad_guard,
            "the matrix is built only when a distance function was selected"
-           if okg else "the matrix can be built without a selected distance "
-           "function (or never)", construct="dispatch guard")
+           if not bad_guard else "the matrix can be built without a "
+           "selected distance function: " + bad_guard[0],
+           construct="dispatch guard")
 
 
 # ------------------------------------------------------------------ D18.2
@@ -394,8 +473,13 @@ def _walkers(ctx: Ctx) -> None:
             # the returned matrix: np.array(__read_n_ints(n*n, ..)).reshape(
             # (n, n)), possibly through a local that is post-processed
             rv = ret.value if ret is not None else None
-            if isinstance(rv, ast.Name) and rv.id in q.objs:
-                rv = q.objs[rv.id]
+            from sa.pathinline import subst
+            for _ in range(4):
+                if rv is None or not any(
+                        isinstance(x, ast.Name) and x.id in q.objs
+                        for x in ast.walk(rv)):
+                    break
+                rv = subst(rv, q.objs)
             for c_ in ast.walk(rv) if rv is not None else []:
                 if isinstance(c_, ast.Call) and isinstance(
                         c_.func, ast.Attribute) and \
@@ -429,6 +513,12 @@ def _walkers(ctx: Ctx) -> None:
         count = None
         reads = [r for r in ast.walk(le.value) if isinstance(r, ast.Call)
                  and ast.unparse(r.func).endswith("__read_n_ints")]
+        if len(reads) != 1:
+            ctx.ob("D18.2", fi, loop, False,
+                   f"{fmt}: the loop `for ... in {ast.unparse(le.value)[:60]}"
+                   "` is not a walk over the numbers read; the walker is "
+                   "not recognised", construct=f"walker {fmt} shape")
+            continue
         if len(reads) == 1:
             try:
                 count = ev.num(nenv, reads[0].args[0])
@@ -587,12 +677,16 @@ def _writer(ctx: Ctx) -> None:
     ts = repo.func(MOD, "Instance.to_stream")
     fs = repo.func(MOD, "_from_stream")
     emitted = set()
+    from sa.pathinline import flatten_fstring as _flat
     for n in ast.walk(ts.node):
-        if isinstance(n, ast.JoinedStr) and n.values and isinstance(
-                n.values[0], ast.FormattedValue) and isinstance(
-                n.values[0].value, ast.Name) and \
-                n.values[0].value.id.startswith("_KEY_"):
-            emitted.add(n.values[0].value.id)
+        if isinstance(n, ast.Call) and isinstance(n.func, ast.Name) and \
+                len(ts.params) > 1 and n.func.id == ts.params[1] and \
+                len(n.args) == 1:
+            toks_ = _flat(n.args[0]) or []
+            if toks_ and toks_[0][0] == "val" and isinstance(
+                    toks_[0][1], ast.Name) and \
+                    toks_[0][1].id.startswith("_KEY_"):
+                emitted.add(toks_[0][1].id)
     handled = {c.comparators[0].id for c in ast.walk(fs.node)
                if isinstance(c, ast.Compare) and len(c.ops) == 1
                and isinstance(c.ops[0], ast.Eq) and isinstance(
@@ -631,17 +725,20 @@ def _writer(ctx: Ctx) -> None:
     ok_ty = ok_fmt = True
     ok_rows = ok_full = None
     n_paths = {True: 0, False: 0}
-    for q in paths(func_body(ts)):
-        if q.ended == "raise":
-            continue
-        pol = set()
-        for tst, truth in q.guards:
+    def polarity(guards: tuple) -> set:
+        pol_ = set()
+        for tst, truth in guards:
             t_, tr_ = tst, truth
             while isinstance(t_, ast.UnaryOp) and isinstance(
                     t_.op, ast.Not):
                 t_, tr_ = t_.operand, not tr_
             if ast.unparse(t_) == sym_src:
-                pol.add(tr_)
+                pol_.add(tr_)
+        return pol_
+    for q in paths(func_body(ts)):
+        if q.ended == "raise":
+            continue
+        pol = polarity(q.guards)
         if len(pol) != 1:
             continue          # contradictory (infeasible) or unconstrained
         sym = next(iter(pol))
@@ -671,6 +768,8 @@ def _writer(ctx: Ctx) -> None:
                     else "?"
                 subs = set()
                 for w in paths(lp.body, Path(env=dict(e.extra))):
+                    if (not sym) in polarity(w.guards):
+                        continue        # the branch of the other kind
                     for ev_ in w.events:
                         if ev_.kind == "expr":
                             subs |= {ast.unparse(x).replace(" ", "")
@@ -913,11 +1012,47 @@ def _tour_parser(ctx: Ctx) -> None:
 
 
 # ------------------------------------------------------------------ D18.5
+def _arith_locals(fi: FuncInfo) -> dict[str, ast.expr]:
+    """Locals assigned exactly once to an arithmetic expression / tuple over
+    parameters, constants and other such locals (`row_len = coord_dim + 1`,
+    `shape = (n, n)`)."""
+    from sa.srcmodel import single_assignments
+    params = set(fi.params)
+    sa_ = single_assignments(fi.node)
+    out: dict[str, ast.expr] = {}
+
+    def pure(e: ast.AST) -> bool:
+        if isinstance(e, ast.Constant):
+            return isinstance(e.value, (int, float))
+        if isinstance(e, ast.Name):
+            return e.id in params or e.id in out
+        if isinstance(e, ast.BinOp):
+            return pure(e.left) and pure(e.right)
+        if isinstance(e, ast.UnaryOp):
+            return pure(e.operand)
+        if isinstance(e, ast.Tuple):
+            return all(pure(x) for x in e.elts)
+        return False
+    for _ in range(3):
+        for k, v in sa_.items():
+            if k not in out and k not in params and pure(v):
+                out[k] = v
+    return out
+
+
 def _points_to_matrix(ctx: Ctx) -> None:
     """NODE_COORD_SECTION -> symmetric matrix of dist_func over all pairs."""
     repo = ctx.repo
     fi = repo.func(MOD, "__matrix_from_points")
     n_, dim_, stream_, df_ = fi.params
+    from sa.pathinline import subst as _subst
+    al_ = _arith_locals(fi)
+    if al_:
+        import dataclasses
+        node_ = _subst(fi.node, al_)
+        for _k in range(2):
+            node_ = _subst(node_, al_)
+        fi = dataclasses.replace(fi, node=node_)
     body = func_body(fi)
 
     def src(n: ast.AST) -> str:
@@ -1031,8 +1166,19 @@ def _points_to_matrix(ctx: Ctx) -> None:
                 and s.value.args and src(s.value.args[0]) == f"{row}[1:]"]
             clr = [s for s in rd.body if isinstance(s, ast.Expr)
                    and src(s.value) == f"{row}.clear()"]
-            if len(app) != 1 or len(clr) != 1 or rd.body.index(
-                    app[0]) > rd.body.index(clr[0]):
+            # a buffer that is created anew for every line needs no clear
+            fresh = [s for s in rd.body if isinstance(
+                s, (ast.Assign, ast.AnnAssign)) and s.value is not None
+                and src(s.targets[0] if isinstance(s, ast.Assign)
+                        else s.target) == row and src(s.value) in (
+                    "[]", "list()")]
+            tok_at = next((k for k, s in enumerate(rd.body) if calls and any(
+                x is calls[0] for x in ast.walk(s))), None)
+            fresh_ok = len(fresh) == 1 and not clr and tok_at is not None \
+                and rd.body.index(fresh[0]) < tok_at
+            if len(app) != 1 or not (fresh_ok or (
+                    len(clr) == 1 and rd.body.index(
+                    app[0]) < rd.body.index(clr[0]))):
                 problems.append("the coordinates of a row (all but its "
                                 "index) are not stored before the buffer is "
                                 "reused")
@@ -1189,7 +1335,8 @@ def _points_to_matrix(ctx: Ctx) -> None:
     dp = repo.func(MOD, "_matrix_from_node_coord_section")
     calls = [c for c in ast.walk(dp.node) if isinstance(c, ast.Call)
              and isinstance(c.func, ast.Name) and repo.resolve(
-                 dp.module, c.func.id) is fi]
+                 dp.module, c.func.id) is repo.func(
+                     MOD, "__matrix_from_points")]
     # the second argument: a local that only ever holds 2 (or the literal);
     # the fourth: the local the branches store the distance function in
     a_ = calls[0].args if len(calls) == 1 else []
@@ -1239,10 +1386,14 @@ def _number_reading(ctx: Ctx) -> None:
                 fwd = a.arg
         val = app.args.args[0].arg
         cfg = CFG(app)
+        def is_sink(c: ast.Call) -> bool:
+            # the default-argument alias `fwd=res.append` or the closure
+            # call `res.append(..)` itself
+            return (isinstance(c.func, ast.Name) and fwd is not None
+                    and c.func.id == fwd) or src(c.func) == f"{res}.append"
         sinks = [n for n in cfg.nodes if n.kind == "stmt" and any(
-            isinstance(c.func, ast.Name) and c.func.id == fwd
-            for c in calls_in(n.ast))]
-        if fwd is None or not sinks:
+            is_sink(c) for c in calls_in(n.ast))]
+        if not sinks:
             problems.append("the appender does not forward to the result "
                             "list")
         else:
@@ -1251,8 +1402,7 @@ def _number_reading(ctx: Ctx) -> None:
                 problems.append("a number can pass the appender without "
                                 "being stored")
             for s in sinks:
-                c = next(c for c in calls_in(s.ast) if isinstance(
-                    c.func, ast.Name) and c.func.id == fwd)
+                c = next(c for c in calls_in(s.ast) if is_sink(c))
                 a = src(c.args[0]) if c.args else "?"
                 if a != val:
                     d = [x for x in ast.walk(app) if isinstance(
@@ -1359,11 +1509,13 @@ def _header(ctx: Ctx) -> None:
     def src(n: ast.AST) -> str:
         return ast.unparse(n).replace(" ", "")
     problems: list[str] = []
-    loop = next((s for s in func_body(fi) if isinstance(s, ast.For)), None)
-    if loop is None:
-        ctx.ob("D18.7", fi, fi.node, False, "no loop over the lines",
-               construct="header protocol")
+    loop0 = next((s for s in func_body(fi) if isinstance(s, ast.For)), None)
+    if loop0 is None:
+        ctx.ob("D18.7", fi, fi.node, False, "the loop over the lines is "
+               "not recognised", construct="header protocol")
         return
+    from sa.srcmodel import fold_consts
+    loop = fold_consts(repo, mod, loop0)
     # ---- key / value split at the first colon
     defs = {}
     for s in ast.walk(loop):
@@ -1377,7 +1529,13 @@ def _header(ctx: Ctx) -> None:
     line = None
     KEY = VALUE = None
     if sep is None:
-        problems.append("lines are not split at their first colon")
+        other = [src(x) for v in defs.values() for x in v
+                 if ".rfind(" in src(x) or ".find(" in src(x)
+                 or ".rindex(" in src(x) or ".index(" in src(x)]
+        problems.append("lines are not split at their first colon"
+                        + (f" (`{other[0][:50]}`)" if other else "")
+                        if other else "the split of a line into key and "
+                        "value is not recognised")
     else:
         line = src(defs[sep][0]).split(".find(")[0]
         # the locals holding the text before / after the colon
@@ -1444,22 +1602,75 @@ def _header(ctx: Ctx) -> None:
     want_sections = {"NODE_COORD_SECTION": "_matrix_from_node_coord_section",
                      "EDGE_WEIGHT_SECTION": "_matrix_from_edge_weights"}
     found = {}
-    for s in ast.walk(loop):
-        if isinstance(s, ast.If) and isinstance(
-                s.test, ast.Compare) and len(s.test.ops) == 1 and isinstance(
-                s.test.ops[0], ast.Eq) and line is not None and src(
-                s.test.left) == line:
-            title = repo.const(mod, s.test.comparators[0])
-            for c in ast.walk(ast.Module(body=s.body, type_ignores=[])):
-                if isinstance(c, ast.Call) and isinstance(
-                        c.func, ast.Name) and c.func.id in \
-                        want_sections.values():
-                    found[title] = c
+    # path by path through the body of the line loop: a reader is called
+    # for the titles T for which `line == T` is consistent with the path
+    # condition (the tests of `line` against constants are evaluated for
+    # every candidate title and for "some other text")
+    from sa.pathinline import paths as _paths
+    titles = {repo.const(mod, c.comparators[0]) for c in ast.walk(loop)
+              if isinstance(c, ast.Compare) and len(c.ops) == 1
+              and line is not None and src(c.left) == line}
+    titles = {t for t in titles if isinstance(t, str)}
+
+    line_forms = {line} | {src(x) for x in defs.get(line or "", [])}
+
+    def holds(t: ast.expr, text: str | None) -> bool | None:
+        if isinstance(t, ast.BoolOp):
+            vs = [holds(v, text) for v in t.values]
+            if isinstance(t.op, ast.And):
+                return False if False in vs else (
+                    None if None in vs else True)
+            return True if True in vs else (None if None in vs else False)
+        if isinstance(t, ast.UnaryOp) and isinstance(t.op, ast.Not):
+            v = holds(t.operand, text)
+            return None if v is None else not v
+        if isinstance(t, ast.Compare) and len(t.ops) == 1 and \
+                line is not None and src(t.left) in line_forms:
+            c = repo.const(mod, t.comparators[0])
+            if isinstance(c, str) and isinstance(
+                    t.ops[0], (ast.Eq, ast.NotEq)):
+                return (c == text) == isinstance(t.ops[0], ast.Eq)
+            if isinstance(t.ops[0], (ast.In, ast.NotIn)) and isinstance(
+                    t.comparators[0], (ast.Tuple, ast.List, ast.Set)):
+                cs = [repo.const(mod, e) for e in t.comparators[0].elts]
+                if all(isinstance(x, str) for x in cs):
+                    return (text in cs) == isinstance(t.ops[0], ast.In)
+        return None
+    try:
+        body_paths = _paths(list(loop.body)) if line is not None else []
+    except ValueError:
+        body_paths = []
+        problems.append("the body of the line loop has too many paths; "
+                        "the section dispatch is not recognised")
+    origs = {c.func.id: c for c in ast.walk(loop) if isinstance(
+        c, ast.Call) and isinstance(c.func, ast.Name)
+        and c.func.id in want_sections.values()}
+    for q in body_paths:
+        # assignments are bound in the environment of the path, other
+        # statements are events; the conditions of the whole path apply
+        vals = [e.value for e in q.events] + list(q.env.values()) + list(
+            q.objs.values())
+        called = {c.func.id for v in vals if isinstance(v, ast.AST)
+                  for c in ast.walk(v) if isinstance(c, ast.Call)
+                  and isinstance(c.func, ast.Name)
+                  and c.func.id in want_sections.values()}
+        for fn_ in sorted(called):
+            for t_ in sorted(titles) + [None]:
+                if all(holds(g, t_) is not (not tr) for g, tr in q.guards):
+                    found.setdefault(t_, []).append(origs[fn_])
+    if None in found and titles:
+        problems.append(f"{found[None][0].func.id} is called for lines "
+                        "that are not the title of its section")
     for title, fn in want_sections.items():
-        c = found.get(title)
-        if c is None or c.func.id != fn:
+        cs_ = found.get(title, [])
+        if not cs_ and not titles:
+            problems.append(f"the dispatch of section {title!r} is not "
+                            "recognised")
+            continue
+        if not cs_ or any(c_.func.id != fn for c_ in cs_):
             problems.append(f"section {title!r} is not read by {fn}")
             continue
+        c = cs_[0]
         callee = repo.func(MOD, fn)
         if c.keywords or len(c.args) != len(callee.params):
             problems.append(f"{fn} is not called positionally with all its "
